@@ -111,34 +111,35 @@ def with_spec(v, spec):
     if isinstance(v, R):
         return R(spec, v.flat, v.ast)
     if isinstance(v, B):
-        return B(spec, v.flat)
+        return B(spec, v.flat, v.ast)
     return v.with_spec(spec)
 
 
 class B:
     """a boolean"""
-    def __init__(self, spec, flat):
+    def __init__(self, spec, flat, ast=None):
         self.spec = spec
         self.flat = flat
+        self.ast = ast if ast is not None else ('bvar', flat)
 
-    def __and__(self, o): return B('(%s && %s)' % (self.spec, o.spec), '(%s && %s)' % (self.flat, o.flat))
-    def __or__(self, o): return B('(%s || %s)' % (self.spec, o.spec), '(%s || %s)' % (self.flat, o.flat))
-    def __invert__(self): return B('!(%s)' % self.spec, '!(%s)' % self.flat)
+    def __and__(self, o): return B('(%s && %s)' % (self.spec, o.spec), '(%s && %s)' % (self.flat, o.flat), ('and', self.ast, o.ast))
+    def __or__(self, o): return B('(%s || %s)' % (self.spec, o.spec), '(%s || %s)' % (self.flat, o.flat), ('or', self.ast, o.ast))
+    def __invert__(self): return B('!(%s)' % self.spec, '!(%s)' % self.flat, ('not', self.ast))
 
 
 def s_eq(a, b):
     a, b = lift(a), lift(b)
-    return B('s_eq(%s, %s)' % (a.spec, b.spec), '(%s == %s)' % (a.flat, b.flat))
+    return B('s_eq(%s, %s)' % (a.spec, b.spec), '(%s == %s)' % (a.flat, b.flat), ('cmp', '==', a.ast, b.ast))
 
 
 def s_lt(a, b):
     a, b = lift(a), lift(b)
-    return B('s_lt(%s, %s)' % (a.spec, b.spec), '(%s < %s)' % (a.flat, b.flat))
+    return B('s_lt(%s, %s)' % (a.spec, b.spec), '(%s < %s)' % (a.flat, b.flat), ('cmp', '<', a.ast, b.ast))
 
 
 def s_le(a, b):
     a, b = lift(a), lift(b)
-    return B('s_le(%s, %s)' % (a.spec, b.spec), '(%s <= %s)' % (a.flat, b.flat))
+    return B('s_le(%s, %s)' % (a.spec, b.spec), '(%s <= %s)' % (a.flat, b.flat), ('cmp', '<=', a.ast, b.ast))
 
 
 TYPE_TEXT = {R: 'Sc', B: 'bool'}
@@ -512,7 +513,7 @@ def ite(c, a, b):
     """if c { a } else { b } on scalars"""
     a, b = lift(a), lift(b)
     return R('(if %s { %s } else { %s })' % (c.spec, a.spec, b.spec), '(if %s { %s } else { %s })' % (c.flat, a.flat, b.flat),
-             ('ite', c.flat, a.ast, b.ast))
+             ('ite', c.ast, a.ast, b.ast))
 
 
 def s_gt(a, b):
